@@ -57,6 +57,16 @@ declare -A CHECKS=(
  [C16-delete-alliance-authority-check-inside-staked-branch]="C16"
  [C18-import-stores-redelegation-without-index]="C18"
  [C20-binding-delegation-drops-rounder]="C20"
+ [C01-undelegate-queues-rederived-amount]="C01 C02 C04"
+ [C03-slash-multiplies-by-one-minus-fraction]="C03 C06"
+ [C04-issued-shares-floored-at-one-per-token]="C04 C05"
+ [C06-slash-ignores-non-bonded-validator]="C06 C08"
+ [C07-unbonding-index-skipped-for-second-denom]="C07 C02"
+ [C10-bonded-hook-needs-alliance-record]="C10"
+ [C11-burn-skipped-when-nothing-matures]="C11 C02"
+ [C15-has-redelegation-checks-first-entry-only]="C15"
+ [C17-weight-change-hook-divides-by-zero-interval]="C17 C14"
+ [C19-redelegation-queue-from-map-values]="C19 C15"
 )
 mkdir -p /verif/out/seeded
 ids=("$@"); [ ${#ids[@]} -eq 0 ] && ids=($(ls -d /verif/seeded/*/ | xargs -n1 basename))
